@@ -8,7 +8,7 @@ TARGETS = ["Base/Corr.vo", "Base/Fl.vo", "Base/Num.vo", "C01/Model.vo", "C01/Cor
            "C01/ProofsProg.vo", "C01/ModelVariants.vo", "C01/ProofsAlias.vo", "C01/ProofsSpecial.vo",
            "C01/ProofsRed.vo", "C01/ProofsSmooth.vo", "C01/ProofsDag.vo", "C01/Props.vo",
            "C01/ModelOpsLang.vo", "C01/Ops_gen.vo", "C01/ProofsGen.vo", "C01/ProofsGenR.vo", "C01/ProofsSeq.vo", "C01/ProofsLoop.vo", "C01/ProofsPred.vo",
-           "C01/PropsGen.vo", "C01/ProofsLSM.vo", "C01/ProofsLSMF.vo", "C01/PropsLSM.vo"]
+           "C01/PropsGen.vo", "C01/ProofsLSM.vo", "C01/ProofsLSMF.vo", "C01/ProofsFar.vo", "C01/PropsLSM.vo"]
 PROPS = ["C01/Props.v", "C01/PropsGen.v", "C01/PropsLSM.v"]
 PARTIAL = ("Theorems are over the reals and about the hand-written register-file model coq/C01/Model.v, tied to the source (a) by "
            "translation: go2coq_c01 prints, on every run, the expressions of all 72 combinator call sites, the bodies of the 28 composite "
@@ -44,7 +44,14 @@ PARTIAL = ("Theorems are over the reals and about the hand-written register-file
            "Pow with a magic exponent, and the full enumeration method x {generic, concrete} x alias pattern x {Real64, Real32} at "
            "order 2 / N >= 2 with dense non-proportional operand gradients, in-place programs and in-place typed vector/matrix "
            "element-wise methods) and Coq-Interval certificates |model_R - Go| <= 2^-40 relative for the elementary operations and "
-           "depth<=3 DAGs. The hunt now carries closed forms (value, gradient, Hessian) of the seven reductions.")
+           "depth<=3 DAGs. The hunt now carries closed forms (value, gradient, Hessian) of the seven reductions. "
+           "Round 7: PropsLSM.logadd_temporary_bounded (over the reals, either operand order, any separation: exp is called on min - max <= 0 "
+           "and the temporary ends in (0, ln 2]) and stationary_point_overwrites_stale_slots / stationary_point_two_arguments (a coefficient "
+           "that is exactly 0 still overwrites a stale slot of a reused receiver); the float-carrier statement 'no intermediate overflows for "
+           "finite operands' is NOT proved (it is sampled: bit-exact replay of LogAdd / LOGADD at 18 operand pairs up to 1e300 apart and the 8 "
+           "+-Inf combinations x {fresh receiver, c = a} x {Real64, Real32}, and of 24 exact-stationary-point steps per (kind, order, N) on receivers with stale "
+           "raw content; the hunt anchors every slot of LogAdd at those pairs, LogSmoothMax with far-apart elements, the reductions at vectors "
+           "with exact zero components, and compares fresh vs reused receivers at 24 stationary sites).")
 CORPUS = os.path.join(vlib.ROOT, "corpus/C01/corpus.jsonl")
 
 
